@@ -86,7 +86,7 @@ class TestRecording:
     # ------------------------------------------------------------------ projection
     def project(self, oplabel):
         tw = _twin()
-        post = {"vol": [], "comp": [], "hn": [], "hsame": [], "last": [], "haswv": False}
+        post = {"vol": [], "comp": [], "hn": [], "hsame": [], "last": [], "haswv": False, "obs": {"vol": True, "comp": True, "hist": True}}
         for k, lw in enumerate(self.labware):
             vol = tw.proj_vol(lw, UNIT)
             post["vol"].append(vol)
@@ -189,7 +189,7 @@ class TestRecording:
                 "pair": False,
                 "millis": False,
                 "splitting": True,
-                "ctorfail": False,
+                "ctorfail": False, "blind": {"has": False},
                 "wl": {"maxv": maxv, "maxc": maxv, "autosplit": autosplit, "diti": diti},
                 "flags": {"records": True, "robot": dev != "base", "comp": False, "norm": False, "file": False, "fullhist": False, "deep": False},
                 "lw": self.lw_init,
